@@ -96,6 +96,8 @@ func verifEncodePath(data []byte) string { return "0pad/data" }
 
 // the armor decoder, as far as Exchange can tell: a reader that consumes the (limited) body
 // and yields the decoded poll response, or fails
+var verifDecFailed bool
+
 type verifDec struct {
 	src  io.Reader
 	done bool
@@ -115,6 +117,7 @@ func (d *verifDec) Read(p []byte) (int, error) {
 	}
 	d.done = true
 	if d.fail {
+		verifDecFailed = true
 		return 0, errors.New("armor decoding failed (stub)")
 	}
 	p[0] = 'R'
@@ -197,6 +200,10 @@ func VerifC11_AMPExchange() {
 	verifFrontingOracle(t, front, orig)
 	if t.calls == 1 {
 		verifapi.Assert(t.sawMethod == "GET", "the AMP poll is a GET")
+	}
+	if verifDecFailed {
+		verifapi.Cover("armor decoding failed while streaming")
+		verifapi.Assert(err != nil, "C10: an armor stream that turns out malformed while it is read is reported as an error, never as partial data")
 	}
 	if err == nil {
 		verifapi.Cover("amp exchange succeeded")
